@@ -415,7 +415,7 @@ async fn batch_candidates(
 
             buf_count = 0;
             #[cfg(feature = "verif")]
-            crate::verif::batch_done();
+            crate::verif::update_batch_done();
 
             // reset the deadline
             process_changes_deadline
